@@ -273,9 +273,14 @@ func checkC04(c *Ctx) {
 	if c.Thorough() {
 		projCfgs = append(projCfgs, map[string]string{"Procs": "{1, 2, 3}", "MaxOps": "1", "MaxOps2": "1", "MaxObjs": "12"}, map[string]string{"MaxOps": "3", "MaxOps2": "2", "MaxObjs": "14"})
 	}
-	for _, pc := range projCfgs {
-	c.MustTLC(TLCOpts{Module: "Pools", Cfg: "Pools.proj", Timeout: 20 * time.Minute,
-		Consts: pc, OnBeh: func(raw json.RawMessage) {
+	for i, pc := range projCfgs {
+	o := TLCOpts{Module: "Pools", Cfg: "Pools.proj", Timeout: 20 * time.Minute}
+	if i >= 2 {
+		// three goroutines / longer programs: the projected graph has > 60 M states; seeded random walks instead
+		o.Simulate, o.Depth, o.Seed, o.Workers = "num=30000", 150, c.Seed+int64(i), 1
+	}
+	o.Consts = pc
+	o.OnBeh = func(raw json.RawMessage) {
 			var b poolBeh
 			if err := json.Unmarshal(raw, &b); err != nil {
 				return
@@ -291,7 +296,8 @@ func checkC04(c *Ctx) {
 			if _, ok := seen[k]; !ok {
 				seen[k] = proj
 			}
-		}})
+		}
+	c.MustTLC(o)
 	}
 	keys := []string{}
 	for k := range seen {
